@@ -12,8 +12,8 @@
         }
         /// the command's reply set
         open spec fn ctrl_known(c: u8, i: u8) -> bool { (c == 128 && i == 0) }
-        /// a packet of the reply set that its own packet type decodes is accepted
-        open spec fn parse_defined(b: Seq<u8>) -> bool { b.len() >= 2 && ((b[0] == 128 && b[1] == 0 && <crate::packets::Ack as zvt_builder::ZvtSerializer>::zd_defined(b))) }
+        /// a packet of the reply set (an APDU has at least its three header bytes) that its own packet type decodes is accepted
+        open spec fn parse_defined(b: Seq<u8>) -> bool { b.len() >= 3 && ((b[0] == 128 && b[1] == 0 && <crate::packets::Ack as zvt_builder::ZvtSerializer>::zd_defined(b))) }
         //@ fn exp:zvt | impl zvt_builder::ZvtParser for Ack | zvt_parse | mod=io props=C15,C02
         //@ end
     }
